@@ -71,9 +71,8 @@ func vfRunScen(c vfScenCase) *vfScenOut {
 		panic(err)
 	}
 	defer os.RemoveAll(dir)
-	out := sc.outDir(dir)
+	out := sc.makeOut(dir)
 	away := filepath.Join(dir, "out-away")
-	os.MkdirAll(out, 0755)
 	ws, we := vfWindowStrings(c.WindowKind)
 	conf := vfConf{DeviceName: "scen", Min: sc.Min, Max: sc.Max, Prev: sc.Prev, Cont: sc.Cont, MinDiskMB: 1, Throttle: c.Throttle, BucketS: c.BucketS, RefillS: c.RefillS,
 		WinStart: ws, WinEnd: we, Motion: vfSimpleMotion(sc.Trigger, sc.Edge), Lat: -43.5, Lon: 172.6}
